@@ -112,7 +112,7 @@ func richCache(cs *Case, hosts []HostNode) (*Pop, *Resolved, *cdi.Cache, string)
 			real = append(real, h)
 		}
 	}
-	p := genPop(cs.R, root, PopOpt{Rich: true, Hosts: real})
+	p := genPop(cs.R, root, PopOpt{Rich: true, Hosts: real}).DropTwins() // (C02 rewrites files)
 	p.Write()
 	cache, _ := cdi.NewCache(cdi.WithSpecDirs(p.Conf...), cdi.WithAutoRefresh(false))
 	return p, p.Resolve(), cache, root
